@@ -285,7 +285,9 @@ func (x *Exec) evalInit(st *State, info *types.Info, sp *ssa.Package, e ast.Expr
 				}
 				v := x.evalInit(st, info, sp, val)
 				if v == nil {
-					return nil
+					// a field initialised by a call (e.g. util.StringToGUID("...")): unknown, the
+					// other fields of the literal keep their values
+					v = x.symVal(st, "initfield", u.Field(idx).Type())
 				}
 				fs[idx] = x.toTV(st, v, u.Field(idx).Type()).E
 			}
